@@ -884,7 +884,7 @@ def parse_args(
                 raise ValueError("fg specified twice")
             kwargs["bg"] = BG_COLORS[cast(str, arg[3:].lower())]
         elif arg.lower() in STYLES:
-            if kwargs.get(arg.lower(), True) is False:
+            if not kwargs.get(arg.lower(), True):
                 raise ValueError(f"{arg.lower()} both named and switched off")
             kwargs[arg.lower()] = True
         else:
